@@ -272,6 +272,7 @@ package actor
 //@   ghost at call Children#1: lb = loglen; log0 = log
 //@   ghost at recv: emit Waited(ch)
 //@   ghost at call Stop#1 before: assert[C08.cleanup.each-child-poisoned-and-awaited] forall(k, 0 <= k && k < len(children) ==> isev(log[lb + 2*k], PoisonSent) && log[lb + 2*k].PoisonSent_pid == children[k] && log[lb + 2*k + 1] == Waited(ctxdone(log[lb + 2*k].PoisonSent_ctx)))
+//@   ensures[C08.cleanup.unlinked-from-parent-first] p.context.parentCtx != nil ==> loglen > entry(loglen) && log[entry(loglen)] == ChildUnlink(p.context.parentCtx.children, p.pid.ID)
 //@   ensures[C04.cleanup.stopped] phase == 3
 //@   ensures[C07.cleanup.cancel-last] cancel != nil ==> log[loglen - 1] == Cancel(cancel)
 //@   ensures[C12.cleanup.stopped-event] isev(log[loglen - ite(cancel != nil, 1, 0) - 1], Broadcast) && log[loglen - ite(cancel != nil, 1, 0) - 1].Broadcast_e == p.context.engine &&
